@@ -165,6 +165,9 @@ pub fn run_case(ctx: &Ctx, case: &Case, counting: bool) -> PResult {
 			}
 			let r = hash_of(&(seed, idx, n, label));
 			let x = r % 1000;
+			// between a call's two lock acquisitions ("mid:") a pause is what opens the window for a
+			// lock-order inversion: pause there more often
+			let ps = if label.starts_with("mid:") { (ps * 2).max(150) } else { ps };
 			if x < ps {
 				std::thread::sleep(Duration::from_micros(1 + (r >> 20) % ms));
 			} else if x < ps + py {
@@ -310,12 +313,33 @@ pub fn run_case(ctx: &Ctx, case: &Case, counting: bool) -> PResult {
 					let mut got = vec![];
 					for (c, _) in &probe {
 						let cm = grin_util::secp::pedersen::Commitment::from_vec(c.clone());
-						let r = match it % 3 {
+						let r = match it % 6 {
 							0 => chain.get_unspent(cm).map(|o| o.is_some()).map_err(|e| format!("{:?}", e)),
 							1 => {
 								let r = w.refs[c];
 								let inputs: Inputs = vec![grin_core::core::Input::new(r.features(), cm)].as_slice().into();
 								Ok(chain.validate_inputs(&inputs).is_ok())
+							}
+							3 => {
+								// the pool's admission path: Chain::validate_tx of a transaction spending just this output
+								let r = w.refs[c];
+								let input = grin_core::core::Input::new(r.features(), cm);
+								let tx = grin_core::core::Transaction::new(vec![input].as_slice().into(), &[], &[]);
+								Ok(chain.validate_tx(&tx).is_ok())
+							}
+							4 => {
+								// the API's path: position from the index, then the output at that position
+								match chain.get_unspent(cm) {
+									Ok(Some((_, pos))) => Ok(chain.get_unspent_output_at(pos.pos - 1).is_ok()),
+									Ok(None) => Ok(false),
+									Err(e) => Err(format!("{:?}", e)),
+								}
+							}
+							5 => {
+								let r = w.refs[c];
+								let inputs: Inputs = vec![grin_core::core::Input::new(r.features(), cm)].as_slice().into();
+								let _ = chain.verify_coinbase_maturity(&inputs);
+								Ok(chain.get_unspent(cm).map(|o| o.is_some()).unwrap_or(false))
 							}
 							_ => Ok(chain.get_unspent(cm).map(|o| o.is_some()).unwrap_or(false)),
 						};
@@ -431,7 +455,7 @@ pub fn run_case(ctx: &Ctx, case: &Case, counting: bool) -> PResult {
 	if stalled {
 		let tb = progress.table.lock().unwrap().clone();
 		let stuck: Vec<String> = tb.iter().enumerate().filter(|(_, x)| !x.2).map(|(i, x)| format!("worker{}@{} ({:.0}s ago)", i, x.0, x.1.elapsed().as_secs_f64())).collect();
-		let mut all_waiting = tb.iter().filter(|x| !x.2).all(|x| x.0.starts_with("want:"));
+		let mut all_waiting = tb.iter().filter(|x| !x.2).all(|x| x.0.starts_with("want:") || x.0.starts_with("mid:"));
 		if !all_waiting {
 			// a worker that is past its first lock acquisition ("got:") may be computing, or may be blocked
 			// on a further lock inside the call (e.g. a second read of a lock it already holds, behind a
@@ -530,7 +554,7 @@ pub fn run_case(ctx: &Ctx, case: &Case, counting: bool) -> PResult {
 pub fn run(ctx: &Ctx) -> HResult<()> {
 	init_global();
 	let ev = &ctx.ev;
-	ev.rule("a fork tree of real-PoW blocks is built sequentially; a fresh chain is then used concurrently by 2-4 peer threads delivering overlapping subsets of the blocks in perturbed orders (twice), 0-2 header-first threads, 1-3 reader threads (head / get_block / get_block_header / get_unspent / validate_inputs / get_header_by_height / set_txhashset_roots on candidate children / segmenter) and a compaction thread on the 90-block base chain, with a seeded perturbation plan (sleep / yield at lock-acquisition points through the cfg(grin_verif) hook); oracles: every observed head names a stored block of matching height and work, head work never decreases per reader, reads bracketed by two equal heads equal the replay model of that head, set_txhashset_roots reproduces the sequential roots, no panic, no stall (45 s without progress; a deadlock is only claimed if every unfinished worker waits for a lock), final head = most work, final roots = sequential builder's, full scan vs. model and validate(false); non-trivial = run with overlapping process_block calls where a reader saw >= 2 heads; distinct by thread mix / world size / heads seen");
+	ev.rule("a fork tree of real-PoW blocks is built sequentially; a fresh chain is then used concurrently by 2-4 peer threads delivering overlapping subsets of the blocks in perturbed orders (twice), 0-2 header-first threads, 1-3 reader threads (head / get_block / get_block_header / get_unspent / validate_inputs / validate_tx / get_unspent_output_at / verify_coinbase_maturity / get_header_by_height / set_txhashset_roots on candidate children / segmenter) and a compaction thread on the 90-block base chain, with a seeded perturbation plan (sleep / yield before, BETWEEN and after the lock acquisitions of each call through the cfg(grin_verif) hook); oracles: every observed head names a stored block of matching height and work, head work never decreases per reader, reads bracketed by two equal heads equal the replay model of that head, set_txhashset_roots reproduces the sequential roots, no panic, no stall (45 s without progress; a deadlock is only claimed if every unfinished worker waits for a lock), final head = most work, final roots = sequential builder's, full scan vs. model and validate(false); non-trivial = run with overlapping process_block calls where a reader saw >= 2 heads; distinct by thread mix / world size / heads seen");
 	ev.assume("interleavings are sampled, not enumerated: a seed fixes the operation multiset and the perturbation plan, not the exact schedule");
 	if let Some((case, f)) = pbt_proc(ctx, "run", ctx.n(256, 4000), 8) {
 		if f.sig.starts_with("harness:") {
